@@ -108,6 +108,8 @@ def find_key(type_, zx, zy, budget):
     cache = _SHAPES.setdefault(type_, {})
     if (zx, zy) in cache:
         return cache[(zx, zy)]
+    if cache.get("exhausted"):
+        return None  # the budget was already spent for this key type: shapes not seen so far are reported as not found
     curve = CURVES[type_]()
     for _ in range(budget):
         k = ec.generate_private_key(curve)
@@ -129,6 +131,8 @@ def find_edge_key(type_, pos, val, budget):
     pool = _POOL.setdefault(type_, {})
     if (pos, val) in pool:
         return pool[(pos, val)]
+    if pool.get("exhausted"):
+        return None
     curve = CURVES[type_]()
     for _ in range(budget):
         k = ec.generate_private_key(curve)
@@ -208,7 +212,7 @@ def run(ctx: core.Check):
         if k % 6 == 0:
             run_keys(ctx, tr, d, s, 1000 + k, "cli")
     ctx.sample({"scenario": tr.scn[1], "event": tr.events[1]})
-    budget = 20000 if ctx.quick else 400000
+    budget = 20000 if ctx.quick else 300000
     if ctx.quick:
         ctx.rng.shuffle(conv_s)
         # keep every (type, zx, zy) shape with zx + zy <= 2 and sample the layout options
